@@ -117,6 +117,8 @@ def run_property(pid, tier='quick', seed=0, only=None):
     t0 = time.time()
     thorough = tier == 'thorough'
     contracts = [c for c in all_contracts() if pid in c.props]
+    assumed_contracts = [c for c in contracts if c.assumed]
+    contracts = [c for c in contracts if not c.assumed]
     if only:
         contracts = [c for c in contracts if any(o in c.id for o in only)]
     closed = [f for f in all_closed() if pid in f.props]
@@ -156,6 +158,8 @@ def run_property(pid, tier='quick', seed=0, only=None):
     samples = []
     abstracted = []
     assumptions = set()
+    for c in assumed_contracts:
+        assumptions.add(f'ASSUMED contract {c.id} on {c.target}: {c.assumed}')
     bounded = []
     for rec in results:
         main = rec['variant'] == 'main'
